@@ -51,7 +51,7 @@ class Clock(i_lib.Clock):
 
     def wait(self):
         if self._keep_going:
-            self._event.wait()
+            self._event.wait(1.0)
         return self._keep_going
 
     def pause_for(self, delay):
